@@ -50,6 +50,7 @@ type FnCtx struct {
 	name     string
 	decls    *Decls
 	facts    []*Term
+	memFacts map[int]bool // facts about member(): emitted only with queries that mention it
 	obls     []*Obligation
 	nfresh   int
 	famSort  map[string]string // family -> sort
@@ -111,6 +112,15 @@ func (c *FnCtx) addFact(t *Term) {
 	}
 	c.factSeen[k] = true
 	c.facts = append(c.facts, t)
+}
+
+// addMemFact records a fact that only matters to queries speaking about member() (kept out of all others).
+func (c *FnCtx) addMemFact(t *Term) {
+	if c.memFacts == nil {
+		c.memFacts = map[int]bool{}
+	}
+	c.memFacts[len(c.facts)] = true
+	c.addFact(t)
 }
 
 func mentionsAny(t *Term, names []string) bool {
